@@ -149,6 +149,8 @@ var (
 	w5a = conOp{K: "clean"}
 	w5b = conOp{K: "pclean", P: "/x"}
 	w6  = conOp{K: "remove", P: "/x/a"}
+	w7  = conOp{K: "handle", P: "/posts/{id}/c"}                      // Any: extends the parameter node
+	w8  = conOp{K: "remove", P: "/posts/author", Ms: []string{"GET"}} // last method of an otherwise untouched route
 	r1  = conOp{K: "serve", Req: hv.Req{Method: "GET", Path: "/posts/author"}}
 	r2  = conOp{K: "serve", Req: hv.Req{Method: "GET", Path: "/posts/7"}}
 	r3  = conOp{K: "serve", Req: hv.Req{Method: "GET", Path: "/t"}}
@@ -160,13 +162,14 @@ var (
 	r9  = conOp{K: "serve", Req: hv.Req{Method: "POST", Path: "/posts/author"}}
 	r10 = conOp{K: "url", Strict: true, P: "/posts/author"} // the node a concurrent Handle(/posts/abc) splits
 	r11 = conOp{K: "url", Strict: true, P: "/x/f"}
+	r12 = conOp{K: "serve", Req: hv.Req{Method: "HEAD", Path: "/posts/author"}}
 )
 
 func c06Scenarios(quick bool) []scenario {
 	setup := c06Setup()
 	cfg := RouterCfg{Lock: true}
-	wseq := [][]conOp{{w1}, {w2}, {w3}, {w4a}, {w4b}, {w5a}, {w5b}, {w6}, {w1, w2}, {w4a, w4b}, {w3, w6}, {w5a, w4b}}
-	rseq := [][]conOp{{r1}, {r2}, {r3}, {r4}, {r5}, {r6}, {r7}, {r8}, {r9}, {r10}, {r11}, {r3, r3}, {r1, r2}, {r6, r3}, {r4, r7}}
+	wseq := [][]conOp{{w1}, {w2}, {w3}, {w4a}, {w4b}, {w5a}, {w5b}, {w6}, {w7}, {w8}, {w1, w2}, {w4a, w4b}, {w3, w6}, {w5a, w4b}}
+	rseq := [][]conOp{{r1}, {r2}, {r3}, {r4}, {r5}, {r6}, {r7}, {r8}, {r9}, {r10}, {r11}, {r12}, {r3, r3}, {r1, r2}, {r6, r3}, {r4, r7}}
 	var out []scenario
 	name := func(ts ...[]conOp) string {
 		var parts []string
@@ -188,16 +191,22 @@ func c06Scenarios(quick bool) []scenario {
 			out = append(out, scenario{Name: name(w, r), Cfg: cfg, Setup: setup, Threads: [][]conOp{w, r}, Bound: bound2, Prop: "C06"})
 		}
 	}
-	for i, w := range wseq[:8] {
-		for _, v := range wseq[i:8] {
+	for i, w := range wseq[:10] {
+		for _, v := range wseq[i:10] {
 			out = append(out, scenario{Name: name(w, v), Cfg: cfg, Setup: setup, Threads: [][]conOp{w, v}, Bound: bound2, Prop: "C06"})
+		}
+	}
+	// readers only: whatever the read paths build lazily under the read lock is shared between them
+	for i, a := range rseq[:12] {
+		for _, b := range rseq[i:11] {
+			out = append(out, scenario{Name: name(a, b), Cfg: cfg, Setup: setup, Threads: [][]conOp{a, b}, Bound: bound2, Prop: "C06"})
 		}
 	}
 	w3s := [][]conOp{{w1}, {w3}, {w4a}, {w5b}, {w6}}
 	r3s := [][]conOp{{r1}, {r3}, {r4}, {r6}}
 	if !quick {
-		w3s = wseq[:8]
-		r3s = rseq[:11]
+		w3s = wseq[:10]
+		r3s = rseq[:12]
 	}
 	for i, a := range w3s {
 		for _, b := range w3s[i:] {
